@@ -71,7 +71,7 @@ pub fn dir_entries3() -> Vec<SEntry> {
 }
 
 pub fn foreign_leaf_spec(comp: u8) -> Spec {
-    Spec { order: 2, gap: 1, root_gap: false, shape: Shape::Leaves, run: 2, offs: Offs::BackRefs, n: 3, meta: 2, comp, base: 0, hv: 1 }
+    Spec { order: 2, gap: 1, root_gap: false, shape: Shape::Leaves, run: 2, offs: Offs::BackRefs, n: 3, meta: 2, comp, base: 0, hv: 1, level_order: false }
 }
 
 fn header_sample() -> Header {
@@ -419,6 +419,59 @@ pub fn scenarios(include_heavy: bool) -> Vec<Scenario> {
             });
             finish(h, r, |x| crate::report::hex(x))
         }) });
+    }
+    // ---- sections with surplus bytes inside their declared length (a reserved/padded section): whatever the
+    // reader decides on an in-memory buffer it must decide under every fragmentation
+    for c in COMPS {
+        let code = crate::common::comp_code(c);
+        let name = cname(c);
+        let f = foreign::build(&Spec { order: 0, gap: 0, root_gap: false, shape: Shape::Leaves, run: 1, offs: Offs::Contiguous, n: 3, meta: 2, comp: code, base: 0, hv: 1, level_order: false });
+        for which in ["meta", "root", "leaf"] {
+            // grow the declared length of one section over the 9 bytes that follow it
+            let mut b = f.bytes.clone();
+            let h = f.header.clone();
+            let (idx, val) = match which {
+                "meta" => (3usize, h.meta_length + 9),
+                "root" => (1usize, h.root_length + 9),
+                _ => (5usize, h.leaf_length + 9),
+            };
+            // make room: insert 9 zero bytes behind the section and shift the later offsets
+            let end = match which {
+                "meta" => h.meta_offset + h.meta_length,
+                "root" => h.root_offset + h.root_length,
+                _ => h.leaf_offset + h.leaf_length,
+            } as usize;
+            let tail = b.split_off(end);
+            b.extend_from_slice(&[0u8; 9]);
+            b.extend_from_slice(&tail);
+            let mut h2 = h.clone();
+            for (o, _) in [(&mut h2.root_offset, 0), (&mut h2.meta_offset, 0), (&mut h2.leaf_offset, 0), (&mut h2.data_offset, 0)] {
+                if *o as usize >= end {
+                    *o += 9;
+                }
+            }
+            match idx {
+                3 => h2.meta_length = val,
+                1 => h2.root_length = val,
+                _ => {
+                    // the last leaf pointer keeps its exact length; only the section is longer
+                    h2.leaf_length = val;
+                }
+            }
+            b[..127].copy_from_slice(&h2.encode());
+            let bb = b.clone();
+            v.push(Scenario { name: format!("archive-open/padded-{which}/{name}/sync"), is_async: false, role: Role::Reader, heavy: false, faults: false, run: Box::new(move |ch| {
+                let h = Handle::new(bb.clone(), ch);
+                let r = catch(|| PMTiles::from_reader(h.sync()).map(|mut pm| view_sync(&mut pm, &[0, 1, 2, 3])));
+                finish(h, r, |x| format!("{x:?}"))
+            }) });
+            let bb = b.clone();
+            v.push(Scenario { name: format!("archive-open/padded-{which}/{name}/async"), is_async: true, role: Role::Reader, heavy: false, faults: false, run: Box::new(move |ch| {
+                let h = Handle::new(bb.clone(), ch);
+                let r = catch(|| block_on(PMTiles::from_async_reader(h.asyn())).map(|mut pm| view_async(&mut pm, &[0, 1, 2, 3])));
+                finish(h, r, |x| format!("{x:?}"))
+            }) });
+        }
     }
     // ---- sizes above the buffer thresholds on the I/O paths (4 KiB codec buffers, 8 KiB BufReader, 64 KiB)
     for c in [Compression::None, Compression::GZip] {
